@@ -70,7 +70,7 @@ def run(ck, facts, tier):
                 n_actions += 1
                 for m in GRAMMAR_PANICS.finditer(alt.action):
                     g_sites.append((nt, m.group(0).replace(" ", "")))
-    ck.floor(R, "grammar-actions", n_actions, 170)
+    ck.floor(R, "grammar-actions", n_actions, 150)
     for nt, what in g_sites:
         ck.violation(R, "grammar:%s:%s" % (nt, what.strip(".(")), gpath,
                      "the action of `%s` contains `%s`: user input reaching it panics instead of producing a parse error (use `=>?` and "
@@ -83,7 +83,7 @@ def run(ck, facts, tier):
             n_act_mir += 1
             for s in panic_sites(b):
                 mir_sites.append((k, s))
-    ck.floor(R, "generated-action-functions", n_act_mir, 300)
+    ck.floor(R, "generated-action-functions", n_act_mir, 250)
     if len(mir_sites) != len(g_sites):
         ck.violation(R, "grammar-vs-generated-actions", gpath, "the grammar text shows %d panicking construct(s) in actions, the compiled actions "
                      "contain %d (%s): the tokenizer and the generated parser disagree" % (len(g_sites), len(mir_sites), [s["key"] for k, s in mir_sites][:4]))
@@ -121,8 +121,8 @@ def run(ck, facts, tier):
                              "a malformed input reaching it crashes instead of returning an error")
     precondition_calls(ck, facts, cg, reach)
     R = "C24.PANIC-FREE"
-    ck.floor(R, "functions-in-region", n_fn, 150)
-    ck.floor(R, "audited-sites", len(seen_audit), 15)
+    ck.floor(R, "functions-in-region", n_fn, 120)
+    ck.floor(R, "audited-sites", len(seen_audit), 12)
     # parse_program / parse_goal map every parser error into Err
     for fn in ("parse_program", "parse_goal"):
         b = need_body(ck, facts, R, "chalk_parse::" + fn)
